@@ -82,6 +82,32 @@ def gen_cases(ctx):
             add("vtb", "split-descriptor", S.py_encode(c, "vtb", S.vtb_with_btctx(g, c, tx))[0])
         except (OverflowError, ValueError):
             pass
+    # the EMPTY input for every decoder (passed by the harness as an empty std::vector: data() == nullptr)
+    for t in S.TYPES:
+        add(t, "empty-input", b"")
+    # checksum-correct adversarial address texts: alone, as source / output address of a plausible ATV, inside PopData
+    for kind, ty, ab in S.adversarial_addresses(r, 60 if quick else 1500):
+        a = S.Rec((ty, ab))
+        add("address", "addr:" + kind, bytes([ty, len(ab) & 0xff]) + ab)
+        try:
+            atv1 = S.plausible_atv(g, c, src=a)
+            atv2 = S.plausible_atv(g, c, outs=[S.Rec((a, 5))])
+            add("atv", "addr-in-atv:" + kind, S.py_encode(c, "atv", r.choice([atv1, atv2]))[0])
+            add("popdata", "addr-in-popdata:" + kind, S.py_encode(c, "popdata", S.Rec((1, [], [S.plausible_vtb(g, c, addr=a)], [atv1])))[0])
+        except (OverflowError, ValueError, IndexError):
+            pass
+    # payloads that pass the cheap stateless checks, and each of them with ONE variable-length part made empty
+    for _ in range(6 if quick else 120):
+        for t, v in (("atv", S.plausible_atv(g, c)), ("vtb", S.plausible_vtb(g, c))):
+            add(t, "plausible", S.py_encode(c, t, v)[0])
+            for w in S.emptied_variants(v):
+                add(t, "zero-length-field", S.py_encode(c, t, w)[0])
+            pd = S.Rec((1, [g.vbkblock(low=True)], [S.plausible_vtb(g, c)], [S.plausible_atv(g, c)]))
+            add("popdata", "plausible", S.py_encode(c, "popdata", pd)[0])
+    for t in ("pubdata", "vbktx", "vbkpoptx", "output", "storedalt", "storedvbk", "altblock", "authctx", "popdata"):
+        for _ in range(2 if quick else 40):
+            for w in S.emptied_variants(g.value(t))[:40]:
+                add(t, "zero-length-field", S.py_encode(c, t, w)[0])
     for t in S.TYPES:
         heavy = t in ("popdata", "vtb", "vbkpoptx")
         # random bytes, with plausible first bytes
